@@ -31,6 +31,10 @@ HOLDERS = {
     # two union classes sharing their members in different positions (member index is per union class)
     "two-unions": (St(("u", URef(P, Q)), ("w", URef(Q, P)), ("k", Sc("i64"))), [("u",), ("w",)], [P, Q]),
     "union-subset": (St(("u", URef(Q, P)), ("w", URef(P)), ("k", Sc("i8"))), [("u",), ("w",)], [P, Q]),
+    # the referents are arrays WITHOUT ITEMS: an empty object is an object, not a null
+    "dyn-array-ref-empty": (St(("r", Ref(DA)), ("k", Sc("i64"))), [("r",)], [DA]),
+    "uref-array-member-empty": (St(("u", URef(DA, P)), ("t", STR)), [("u",)], [DA, P]),
+    "array-of-array-refs-empty": (Arr(Ref(DA), (2,)), [((0,),), ((1,),)], [DA]),
 }
 
 
@@ -46,7 +50,7 @@ def describe(tier):
         "transition, independent afterwards; every non-null slot resolves to a live traced allocation of its buffer with the recorded member type.",
         bounds=dict(holders=sorted(HOLDERS), depth="4 (3 for two-slot holders)" if tier == "quick" else "5 (4 for two-slot holders)", max_holders=2, sharding="one BFS per (holder, first event); states deduplicated within a shard"),
         assumptions=["object identity in the model = (buffer, offset) of a live traced allocation"],
-        must_fire=["bind-existing", "bind-value", "bind-foreign", "bind-null", "write-ref", "write-orig", "grow", "construct", "assign-parent"],
+        must_fire=["bind-existing", "bind-existing-view", "bind-null-view", "bind-value", "bind-foreign", "bind-null", "write-ref", "write-orig", "grow", "construct", "assign-parent"],
     )
 
 
@@ -61,13 +65,19 @@ def shards(tier, seed):
     return out[seed % len(out):] + out[: seed % len(out)]
 
 
+_EMPTY = [False]
+
+
 def obj_value(t, n):
+    if _EMPTY[0] and t[0] == "A":
+        return {"shape": tuple(0 if d is None else d for d in t[2]), "items": {}}
     return xt.gen(t, "ramp", xt.Ctr(n * 10))
 
 
 class World:
     def __init__(self, hname, salt=0):
         self.hname = hname
+        _EMPTY[0] = hname.endswith("-empty")
         self.ht, self.slots, self.members = HOLDERS[hname]
         self.B = place.traced("np", 8, default_alignment=8, grow_step=8)
         instrument(self.B)
@@ -165,7 +175,13 @@ def events(w, max_holders=2):
                 if w.objs[w.foreign]["t"] in w.slot_members(sp):
                     evs.append(("bind-foreign", hi, sp))
                 evs.append(("bind-null", hi, sp))
-            if binding[sp] is not None:
+                # the same rebinding done through ANOTHER Python object for the same bytes (a view rebuilt from the buffer);
+                # the holder's own handle, read before and after, must follow
+                pool_ok = [oid for oid in w.pool if w.objs[oid]["t"] in w.slot_members(sp)]
+                if pool_ok:
+                    evs.append(("bind-existing-view", hi, sp, pool_ok[-1]))
+                evs.append(("bind-null-view", hi, sp))
+            if binding[sp] is not None and first_leaf(w.objs[binding[sp]]["t"], w.objs[binding[sp]]["v"]) is not None:
                 evs.append(("write-ref", hi, sp))
             if len(sp) > 1 and not isinstance(sp[-2], tuple):
                 # the reference lives in a struct embedded by value: assign that whole struct from an instance of the same
@@ -173,7 +189,8 @@ def events(w, max_holders=2):
                 for where in ("same", "foreign"):
                     evs.append(("assign-parent", hi, sp, where))
     for oid in w.pool[:2] + [w.foreign]:
-        evs.append(("write-orig", oid))
+        if first_leaf(w.objs[oid]["t"], w.objs[oid]["v"]) is not None:  # an array without items has nothing to write to
+            evs.append(("write-orig", oid))
     evs.append(("grow",))
     if len(w.holders) < max_holders:
         for b in (None, w.pool[0]):
@@ -189,6 +206,13 @@ def apply(w, ev, n):
         _, hi, sp, oid = ev
         w.slot_write(hi, sp, w.objs[oid]["h"])
         w.holders[hi][1][sp] = oid
+    elif kind in ("bind-existing-view", "bind-null-view"):
+        hi, sp = ev[1], ev[2]
+        h = w.holders[hi][0]
+        w.slot_read(hi, sp)  # the handle has looked at the slot before
+        view = xt.build(w.ht)._from_buffer(h._buffer, h._offset)
+        hand.assign(w.ht, view, sp, w.objs[ev[3]]["h"] if kind == "bind-existing-view" else None)
+        w.holders[hi][1][sp] = ev[3] if kind == "bind-existing-view" else None
     elif kind == "bind-value":
         _, hi, sp, mi = ev
         st = w.slot_type(sp)
